@@ -383,7 +383,17 @@ def emit : Handler := fun req => do
           | _ => false
       let singleNames : List String := schemasJ.filterMap fun (k, v) => if isSingleRefUnion v then some (rustName k) else none
       let wrapperNames : List String := schemasJ.filterMap fun (k, v) => if isNullableWrapper v then some (rustName k) else none
-      let classes := undefinedNames.map fun u => if addlTargets.contains u then "KnownAddlPropsRef" else if wrapperNames.contains u then "KnownNullableWrapper" else if singleNames.contains u then "KnownSingleRefUnion" else if ppTargets.contains u then "KnownPathItemParam"
+      -- F07-6: a component schema with a reference INTO ANOTHER DOCUMENT somewhere inside cannot be converted; it is reported as
+      -- skipped, yet the types that mention it are emitted
+      let rec hasExternalRef (fuel : Nat) (v : Json) : Bool :=
+        match fuel with
+        | 0 => false
+        | f + 1 => match v with
+          | .obj kvs => kvs.toList.any fun (k, x) => (k == "$ref" && (match x with | .str t => !t.startsWith "#" | _ => false)) || hasExternalRef f x
+          | .arr a => a.toList.any (hasExternalRef f)
+          | _ => false
+      let skippedNames : List String := schemasJ.filterMap fun (k, v) => if hasExternalRef 12 v then some (rustName k) else none
+      let classes := undefinedNames.map fun u => if skippedNames.contains u then "KnownSkippedSchemaReferenced" else if addlTargets.contains u then "KnownAddlPropsRef" else if wrapperNames.contains u then "KnownNullableWrapper" else if singleNames.contains u then "KnownSingleRefUnion" else if ppTargets.contains u then "KnownPathItemParam"
         else if typeDefs.any (fun d => d != u && d.toLower == u.toLower) then "KnownTypeNameCaseMismatch" else ""
       verdict false (if classes.contains "" then [] else classes.eraseDups) s!"mentioned but not defined: {undefinedNames}"
     else if !dupTypes.isEmpty then verdict false [] s!"defined more than once: {dupTypes}"
